@@ -489,7 +489,7 @@ func drawCase(rt *rapid.T) *Case {
 
 func TestC07_RoundTrip(t *testing.T) {
 	rec := stats.New(t, "C07", rule)
-	rp.Check(t, 2400, 40000, func(rt *rapid.T) {
+	rp.Check(t, 2400, 400000, func(rt *rapid.T) {
 		c := drawCase(rt)
 		var mk []string
 		for k, v := range c.Metadata {
